@@ -44,7 +44,7 @@ def design_level(tier):
 
 
 def gen_scripts(tier, work):
-    n_rand, n_sim, depth = (1500, 150, 18) if tier == "quick" else (30000, 3000, 18)
+    n_rand, n_sim, depth = (3000, 250, 18) if tier == "quick" else (20000, 1500, 18)
     rnd = work / "scripts_random.ndjson"
     tpv(["hirdb-gen", "--seed", seed(), "--runs", n_rand, "--out", rnd])
     random_scripts = read_ndjson(rnd)
@@ -54,7 +54,7 @@ def gen_scripts(tier, work):
         raise ToolError(f"TLC -simulate exported only {len(sim)} scripts")
     e = run_tlc("MCHirDb", "ExhHirDb" if tier == "quick" else "ExhHirDb_thorough", workers=1, timeout=1800, tag="exh-c13")
     exh = tlc_printed(e["stdout"], "SCRIPT")
-    if len(exh) < 4096:
+    if len(exh) < (4096 if tier == "quick" else 65536):
         raise ToolError(f"TLC breadth-first export gave only {len(exh)} histories")
     seen, tlc_scripts = set(), []
     for src, lst in (("tlc-bfs", exh), ("tlc-simulate", sim)):
@@ -103,17 +103,21 @@ def validate_chunks(runs, work):
         if verdict["events"] != nev or verdict["runs"] != len(idx):
             raise ToolError(f"trace validation did not consume chunk {ci}: {verdict['events']}/{nev} events, {verdict['runs']}/{len(idx)} runs")
         p.unlink()
+        vp = work / f"chunk{ci:03d}.trace.ndjson.verdict.json"
+        if vp.exists():
+            vp.unlink()
         return ci, verdict
 
     out = {}
     with ThreadPoolExecutor(max_workers=4) as ex:
         for ci, v in ex.map(one, range(len(chunks))):
             out[ci] = v
-    bad, nq, nmodel = [], 0, 0
+    bad, nq, nmodel, nnames = [], 0, 0, 0
     for ci in sorted(out):
         v, idx = out[ci], chunks[ci]
         nq += v["queries"]
         nmodel += v["modelChecked"]
+        nnames += v["namesJudged"]
         start = {}
         ln = 0
         for k, i in enumerate(idx):
@@ -122,7 +126,7 @@ def validate_chunks(runs, work):
         for b in v["bad"]:
             i, off = start[b["run"]]
             bad.append(dict(b, run_index=i, pos=b["line"] - off))     # pos: 1-based event position inside the run
-    return bad, nq, nmodel, len(chunks)
+    return bad, nq, nmodel, nnames, len(chunks)
 
 
 def panic_site(msg):
@@ -151,7 +155,7 @@ def run(prop, tier, replay):
     runs = split_runs(rows)
     if len(runs) != len(scripts):
         raise ToolError(f"{len(scripts)} scripts but {len(runs)} recorded runs")
-    bad, nq, nmodel, nchunks = validate_chunks(runs, work)
+    bad, nq, nmodel, nnames, nchunks = validate_chunks(runs, work)
     abstraction_only = 0
     for b in bad:
         why = set(b["why"])
@@ -208,6 +212,7 @@ def run(prop, tier, replay):
         "trace_validation_passes": nchunks,
         "queries_compared_with_two_fresh_databases": nq,
         "queries_also_matching_the_model_answer": nmodel,
+        "name_observations_pinned_down_by_the_model": nnames,
         "queries_per_kind": per_kind,
         "queries_on_absent_files": sum(1 for e in queries if not e.get("present")),
         "panics_recorded": sum(1 for e in rows if e["a"] == "Panic"),
@@ -222,7 +227,7 @@ def run(prop, tier, replay):
         "samples": [scripts[0], (queries[len(queries) // 2] if queries else None)],
         "exhaustive": False,
     }
-    return rep.finish(cov, assumptions=[
+    rc = rep.finish(cov, assumptions=[
         "the reference is a brand-new Database loaded with the same (FileId -> text) map under the same FileIds; it is loaded in ascending "
         "and in descending FileId order and both must agree with the long-lived database (each load order is itself a history)",
         "answers are compared with the types' own PartialEq (Vec<Diagnostic>, SymbolTable, FileAnalysis, (offset, expr id, TypeId) at every "
@@ -235,3 +240,8 @@ def run(prop, tier, replay):
         "salsa's own dependency tracking is trusted relative to the inputs it is given (HirDb.tla models memo reuse by value of what was read)",
         "arbitrary contents are small (damaged renderings of the scripted texts, < 1 KiB); deep nesting / huge inputs are the business of C12",
     ])
+    # the replay files carry everything needed to reproduce a rejection; large scratch files go
+    for p in (tr, work / "all.scripts.ndjson", work / "scripts_random.ndjson"):
+        if p.exists() and p.stat().st_size > 64 << 20:
+            p.unlink()
+    return rc
